@@ -59,6 +59,16 @@ def cipher_cases(ch):
                 cand = recs + [{"id": 1, "ent": 0, "auth": 1, "integ": [1] * min(extra, 3), "conf": [1] * max(0, min(extra - 3, 3))}]
                 if len(enc_records(cand)) in (target, target - 1, target + 1):
                     cases.append(("boundary", cand))
+    # lists whose record data repeats with period 16 on the chunk grid: consecutive chunks are byte-for-byte the same (a BMC
+    # may list a suite twice; eight identical 4-byte records; a pair of 8-byte OEM records twice) - still a list to return whole
+    r4 = {"id": rng.randrange(256), "ent": 0, "auth": rng.randrange(4), "integ": [rng.randrange(64)], "conf": []}
+    r8 = lambda: {"id": rng.randrange(256), "ent": rng.randrange(1, 1 << 24), "auth": rng.randrange(4), "integ": [rng.randrange(64)], "conf": [rng.randrange(64)]}
+    p1, p2 = r8(), r8()
+    for reps in (2, 3, 4):
+        cases.append(("periodic", [dict(r4) for _ in range(4 * reps)]))
+        cases.append(("periodic", [p1, p2] * reps))
+        cases.append(("periodic", [p1, p2] * reps + gen_recs(rng, 1)))
+        cases.append(("periodic", gen_recs(rng, 0) + [dict(r4) for _ in range(4 * reps)] + [p1]))
     out = []
     # record data of 1008..1100 bytes: the 6-bit list index wraps after 64 chunks; whatever the BMC keeps serving, the
     # loop must stop after 65 requests (C16_chunk_loop_at_most_65_requests) - a BMC that always answers with a full chunk
